@@ -797,6 +797,21 @@ class Interp:
 
     def loop_items(self, st, itv):
         """-> list of (guard_or_True, value_thunk)."""
+        if isinstance(itv, SymRange) and is_sym(itv.start):
+            # symbolic start, concrete stop, unit step: candidates from the start's interval, each run only if in range
+            if is_sym(itv.stop) or itv.step not in (1, -1):
+                raise Unsupported("range with symbolic start needs a concrete stop and unit step")
+            lo, hi = self.bounds_of(itv.start)
+            if lo is None or hi is None:
+                raise Unsupported("no bounds known for symbolic range start")
+            out = []
+            if itv.step == -1:
+                for k in range(hi, itv.stop, -1):
+                    out.append((self.A.cmp("<=", k, itv.start), (lambda kk=k: kk), "skip"))
+            else:
+                for k in range(lo, itv.stop):
+                    out.append((self.A.cmp(">=", k, itv.start), (lambda kk=k: kk), "skip"))
+            return out
         if isinstance(itv, SymRange):
             out = []
             k = itv.start
@@ -835,7 +850,7 @@ class Interp:
             return [(True, (lambda x=x: x)) for x in itv]
         if isinstance(itv, Enumerate):
             inner = self.loop_items(st, itv.inner)
-            return [(g, (lambda i=i, th=th: (i + itv.start, th()))) for i, (g, th) in enumerate(inner)]
+            return [(it_[0], (lambda i=i, th=it_[1]: (i + itv.start, th()))) for i, it_ in enumerate(inner)]
         if isinstance(itv, Zip):
             inners = [self.loop_items(st, x) for x in itv.inners]
             n = min(len(x) for x in inners)
@@ -892,8 +907,25 @@ class Interp:
                 else:
                     if i >= len(items):
                         break
-                    g, thunk = items[i]
+                    g, thunk = items[i][0], items[i][1]
                     g = self.decide(st, g) if g is not True else True
+                    if len(items[i]) > 2 and items[i][2] == "skip" and g is not True:
+                        if g is not False:
+                            def one(s2, thunk=thunk):
+                                self._cur = s2
+                                self._iteration(s2, s, thunk)
+                            self.branch(st, g, one, None)
+                            self._cur = st
+                        dead = z_or(st.brk, st.ret, st.exc)
+                        dead = self.decide(st, dead) if dead is not False else False
+                        if dead is True:
+                            return
+                        if dead is not False:
+                            self.branch(st, z_not(dead), lambda s2, i=i: run_from(s2, i + 1), None, keep_flags=True)
+                            self._cur = st
+                            return
+                        i += 1
+                        continue
                 if g is False:
                     break
                 if g is not True:
@@ -1376,7 +1408,8 @@ class Interp:
         out = []
         saved = dict(st.env)
         self._cur = st
-        for guard, thunk in items:
+        for item_ in items:
+            guard, thunk = item_[0], item_[1]
             if guard is not True:
                 raise Unsupported("comprehension over symbolic-length iterable")
             self.assign(st, g.target, thunk())
@@ -1413,6 +1446,8 @@ class Interp:
                 st.exc_list = st.exc_list + v.exc_list
                 st.exc = z_or(st.exc, *[g for g, _, _ in v.exc_list])
             return None
+        if v is None:
+            return None   # nested generator function already recorded its yields in this state
         raise Unsupported("yield from non-generator")
 
     # delegated to lib (kept there to keep this file readable)
